@@ -21,6 +21,9 @@ import (
 	"github.com/blevesearch/bleve/v2/search"
 )
 
+// pathSeparator separates the elements of a field path (mapping.pathSeparator)
+const pathSeparator = "."
+
 // NestedFieldCache caches nested field prefixes and their corresponding nesting levels.
 // A nested field prefix is a field path prefix that indicates the start of a nested document.
 // The nesting level indicates how deep the nested document is in the overall document structure.
@@ -121,7 +124,9 @@ func (nfc *NestedFieldCache) prefixMatch(prefix string, fieldPaths search.FieldS
 	common = true
 	any = false
 	for path := range fieldPaths {
-		has := strings.HasPrefix(path, prefix)
+		// a nested prefix covers the path only at a path element boundary
+		has := strings.HasPrefix(path, prefix) &&
+			(len(path) == len(prefix) || strings.HasPrefix(path[len(prefix):], pathSeparator))
 		if has {
 			any = true
 		} else {
